@@ -60,6 +60,16 @@ def random_schedules(seed, n, big):
                 if kind == "overflow" and r.random() < 0.7:
                     continue
                 steps.append({"ev": "Read"})
+        # in a third of the schedules time passes while the run goroutine is left ALONE in its select (no sentinel
+        # registration after the clock step): what it remembers from its last iteration is then older than the clock
+        if i % 3 == 1:
+            for st in steps:
+                if st["ev"] == "Advance":
+                    st["quiet"] = True
+        elif i % 3 == 2:
+            for st in steps:
+                if st["ev"] == "Advance" and r.random() < 0.5:
+                    st["quiet"] = True
         # drain
         steps.append({"ev": "Advance", "by": maxdl + 5})
         for _ in range(r.randint(0, len(duties) + 1)):
@@ -79,7 +89,7 @@ def with_races(r, scheds, p=0.5):
                 t.append({"ev": "RaceAdd", "by": s[i]["by"], "d": s[i + 1]["d"]})
                 i += 2
             else:
-                t.append(s[i])
+                t.append(dict(s[i], quiet=True) if s[i]["ev"] == "Advance" and r.random() < 0.4 else s[i])
                 i += 1
         out.append(t)
     return out
